@@ -22,7 +22,7 @@ import (
 func init() {
 	ev.Register(&ev.Spec{
 		ID: "C20", Level: "exploration",
-		Rule:            "(a) localfs (dev, ino) -> QID path mapping evaluated through a verif hook on pairs of every class (compact, high device bits, large major/minor, ino >= 2^39, field boundaries +-1), each pair looked up repeatedly, sequentially and from 8 goroutines: stability and injectivity via hash maps; real files of every creatable type through localfs for QID type vs mode; (b) qids.Mapper and composefs/staticfs served to concurrent clients under the race detector; (c) FileMode <-> os.FileMode round trip for 7 types x 4096 permission values, both directions (exhaustive). Non-trivial: pair outside the all-zero case / mode with a type; distinct by (class) resp. value.",
+		Rule:            "(a) localfs (dev, ino) -> QID path mapping evaluated through a verif hook on pairs of every class (compact, high device bits, large major/minor, ino >= 2^39, field boundaries +-1), each pair looked up repeatedly, sequentially and from 8 goroutines: stability and injectivity via hash maps; real files of every creatable type through localfs for QID type vs mode; (b) qids.Mapper and composefs/staticfs served to concurrent clients under the race detector (walks, GetAttr and repeated listings of the mounted directories: every view of a file must report one QID path, every file its own); (c) FileMode <-> os.FileMode round trip for 7 types x 4096 permission values, both directions (exhaustive). Non-trivial: pair outside the all-zero case / mode with a type; distinct by (class) resp. value.",
 		Assume:          []string{"race detector enabled in both tiers for this property", "the verif hook calls the real localToQid"},
 		Shards:          shards(4, 8),
 		Race:            raceIn("quick", "thorough"),
@@ -423,6 +423,30 @@ func c20Served(c *ev.Ctx) {
 							res[g] = append(res[g], obs{key, gq})
 						}
 						f.Close()
+					}
+					// the same files as a listing reports them - twice: the QID
+					// of an entry is the QID of the file, every time
+					for _, dp := range [][]string{{"static"}, {"local"}} {
+						for rep := 0; rep < 2; rep++ {
+							_, d, err := root.Walk(dp)
+							if err != nil {
+								continue
+							}
+							if _, _, err := d.Open(p9.ReadOnly); err == nil {
+								off := uint64(0)
+								for page := 0; page < 100; page++ {
+									ents, err := d.Readdir(off, 1<<15)
+									if err != nil || len(ents) == 0 {
+										break
+									}
+									for _, e := range ents {
+										res[g] = append(res[g], obs{fmt.Sprint(append(append([]string{}, dp...), e.Name)), e.QID})
+									}
+									off = ents[len(ents)-1].Offset
+								}
+							}
+							d.Close()
+						}
 					}
 				}(g)
 			}
